@@ -49,6 +49,8 @@ BASES = {
     "SubscribeCOV-confirmed": H(NP_REQ + "00050805" + "0902" + "1C00400001" + "2901" + "3903"),
     "AtomicReadFile-unsupported": H(NP_REQ + "00050606" + "C402800001" + "0E" + "3100" + "210A" + "0F"),
     "unregistered-service": H(NP_REQ + "00050755" + "0901"),
+    "DeviceCommunicationControl": H(NP_REQ + "00050A11" + "1900"),
+    "DeviceCommunicationControl-full": H(NP_REQ + "00050B11" + "0901" + "1900" + "2A0061"),
     "ReadProperty-routed-source": H("010C" + "0007" + "01" + "21" + "0005090C" + "0C02000001" + "194D"),
     "WhoIs": H(NP_UNC + "1008" + "0900" + "1903"),
     "IAm": H(NP_UNC + "1000" + "C402000009" + "2201E0" + "9103" + "210F"),
@@ -60,6 +62,7 @@ PROBE = H(NP_REQ + "0005C80C" + "0C02000001" + "194D")                 # ReadPro
 PROBE_ROUTED = H("010C" + "0007" + "01" + "21" + "0005C90C" + "0C02000001" + "194D")
 PROBE_ROUTED_REPLY = H("0120" + "0007" + "01" + "21" + "FF" + "30C90C" + "0C02000001" + "194D" + "3E" + "7400646576" + "3F")
 PROBE_REPLY_APDU = H("30C80C" + "0C02000001" + "194D" + "3E" + "7400646576" + "3F")   # ComplexAck "dev"
+DCC_ENABLE = H(NP_REQ + "0005CA11" + "1900")                          # DeviceCommunicationControl enable, invoke 202
 INSERT_VALUES = (0x00, 0x01, 0x0E, 0x0F, 0x1E, 0x3E, 0x3F, 0xFF)
 
 
@@ -130,10 +133,22 @@ def run_frames(level, frames, settle_between=True, probe=True, judge_first_reply
     dev.run_quiet()
     problems = []
     sent = replies_of(dev, level, start)
+    # DeviceCommunicationControl is the one rightful cause of silence: follow what the frames do to the communication
+    # state ("on", "off" until a time, "unknown"); all frames arrive at time 0
+    comm, silent_ok = ("on",), []
+    for f in frames:
+        eff = devref.dcc_effect(f, level)
+        silent_ok.append(comm[0] != "on" and devref.classify(f, level).get("service") != 17)
+        if eff[0] == "disable":
+            comm = ("off", float("inf") if eff[1] == 0 else 60.0 * eff[1])
+        elif eff[0] == "maybe":
+            comm = ("unknown",)
+        elif devref.classify(f, level)["judged"] and devref.classify(f, level).get("service") == 17:
+            comm = ("on",)          # a DCC request that does not disable: enable, disable-initiation or an undefined value
     # reply oracle per frame
     for fi, f in enumerate(frames):
         cls = devref.classify(f, level)
-        if not cls["judged"] or (fi == 0 and not judge_first_reply):
+        if not cls["judged"] or (fi == 0 and not judge_first_reply) or silent_ok[fi]:
             continue
         mine = [(dst, n, a) for (dst, n, a, raw) in sent
                 if a is not None and a["invoke"] == cls["invoke"] and a["type"] in (2, 3, 5, 6, 7)
@@ -151,6 +166,16 @@ def run_frames(level, frames, settle_between=True, probe=True, judge_first_reply
         problems.append(("livelock", {"errors": dev.errors[:2]}))
     obs = [("%s->%s" % (a["name"], a["invoke"]) if a else "raw") for (dst, n, a, raw) in sent]
     if probe:
+        if comm[0] == "unknown" or (comm[0] == "off" and comm[1] > vclock.clock.now):
+            # rightfully (or possibly) silenced: a valid enable request must be acknowledged and bring it back
+            before = len(dev.sent())
+            dev.inject(wrap(level, DCC_ENABLE))
+            dev.settle()
+            got = replies_of(dev, level, before)
+            ok = [1 for (dst, n, a, raw) in got if a is not None and a["type"] == 2 and a["invoke"] == 202 and to_tester(dst, level)]
+            if len(ok) != 1:
+                problems.append(("enable-request-to-a-disabled-device-not-acknowledged", {"got": [raw.hex() for (_, _, _, raw) in got][:3]}))
+            obs.append("enabled-again")
         before = len(dev.sent())
         dev.inject(wrap(level, PROBE))
         dev.settle()
@@ -298,6 +323,85 @@ def dlg_shard(item, deadline):
     return acc
 
 
+# Neighbours: two complete devices in one interpreter (two stations of one vlan, or one device built after another was
+# abandoned).  What one of them is in the middle of must not be visible to the other.
+PROBE_AV = H(NP_REQ + "0005C80C" + "0C00800001" + "194D")              # ReadProperty analogValue,1 objectName, invoke 200
+PROBE_AV_REPLY_APDU = H("30C80C" + "0C00800001" + "194D" + "3E" + "7400617631" + "3F")
+
+
+def neighbour_case(level, opening, busy_twin, mode):
+    """-> (problems, observation).  mode 'side-by-side': device X is left in the middle of `opening`, the tester then asks
+    device Y something with the same invoke ID; 'successor': X is abandoned in the middle and a new device is built."""
+    problems = []
+    if mode == "successor":
+        old = Device(level)
+        old.inject(wrap(level, opening))
+        dev = Device(level)
+        born = dev.residue()
+        if born:
+            problems.append(("a-freshly-built-device-starts-with-transactions", {"what": born}))
+        before = len(dev.sent())
+        dev.inject(wrap(level, PROBE_AV))
+        got = replies_of(dev, level, before)
+        ok = [1 for (dst, n, a, raw) in got if n is not None and n["payload"] == PROBE_AV_REPLY_APDU and to_tester(dst, level)]
+        if len(ok) != 1 or len(got) != 1:
+            problems.append(("request-to-a-freshly-built-device-not-answered-correctly", {"got": [raw.hex() for (_, _, _, raw) in got][:3]}))
+        dev.run_quiet()
+        for k, v in dev.residue().items():
+            problems.append(("residue:%s" % k, {"what": v}))
+        del old
+        return problems, ("successor", len(got))
+    # the busy device on its own: what it sends from the opening to quiescence when nobody else is spoken to
+    alone = Device(level, twin=True)
+    start = len(alone.wire.log)
+    alone.inject(wrap(level, opening), twin=busy_twin)
+    alone.run_quiet()
+    want = alone.sent_by(twin=busy_twin, start=start)
+    dev = Device(level, twin=True)
+    if len(dev.wire.log) != start:
+        raise HarnessError("C10: two identically built pairs of devices announced themselves differently")
+    dev.inject(wrap(level, opening), twin=busy_twin)
+    dev.inject(wrap(level, PROBE_AV), twin=not busy_twin)
+    mine = []
+    for (dst, data) in dev.sent_by(twin=not busy_twin, start=start):
+        npdu = data if level == "lan" else devref.strip_bvll(data)
+        mine.append((dst, npdu))
+    ok = [1 for (dst, npdu) in mine if npdu is not None and npdu.endswith(PROBE_AV_REPLY_APDU) and to_tester(dst, level)]
+    if len(ok) != 1 or len(mine) != 1:
+        problems.append(("request-to-the-idle-neighbour-not-answered-correctly",
+                         {"sent by the idle device": [(d, (x or b"").hex()) for d, x in mine][:3]}))
+    dev.run_quiet()
+    got = dev.sent_by(twin=busy_twin, start=start)
+    if got != want:
+        problems.append(("busy-device-behaves-differently-when-its-neighbour-is-spoken-to",
+                         {"alone": [x.hex()[:40] for _, x in want][:6], "with neighbour traffic": [x.hex()[:40] for _, x in got][:6]}))
+    for tw in (False, True):
+        for k, v in dev.residue(twin=tw).items():
+            problems.append(("residue:%s:%s" % ("second-device" if tw else "first-device", k), {"what": v}))
+    if any(e.startswith("Livelock") for e in dev.errors):
+        problems.append(("livelock", {"errors": dev.errors[:2]}))
+    return problems, ("side-by-side", len(want), len(mine))
+
+
+def nb_shard(item, deadline):
+    acc = Acc()
+    for (level, opening, busy_twin, mode) in item:
+        if time.time() > deadline:
+            acc.cap("deadline inside the neighbour sweep")
+            break
+        problems, obs = neighbour_case(level, opening, busy_twin, mode)
+        acc.case((level, opening, busy_twin, mode))
+        acc.traces += 1
+        acc.transitions += 3
+        acc.state((level, "neighbour", mode, obs, bool(problems)))
+        acc.outcome("nb:%s:%s" % (mode, "ok" if not problems else problems[0][0]))
+        for prob, detail in problems:
+            acc.fail("dev:neighbour:%s:%s" % (mode, prob.split(":")[0] if prob.startswith("residue") else prob),
+                     {"problem": prob, "detail": detail, "level": level, "opening": opening.hex(), "busy": "second" if busy_twin else "first",
+                      "mode": mode}, {"neighbour": True, "level": level, "opening": opening, "busy_twin": busy_twin, "mode": mode})
+    return acc
+
+
 def all_mutations(tier):
     out = []
     for level in ("lan", "ip"):
@@ -357,6 +461,22 @@ def run(tier, seed, deadline):
     dlg = dialogue_cases(tier)
     acc.info["dialogue replies"] = len(dlg)
     run_shards(dlg_shard, chunks(dlg, 128), deadline, into=acc)
+    # neighbours: every opening that leaves a device in the middle of something (dialogue openings and the lingering
+    # representatives of the mutation pass, NPDU level), busy device first/second, side by side / successor
+    nb = []
+    for level in ("lan", "ip"):
+        openings = [o for (o, r) in DIALOGUES.values()]
+        for lv, prio, f in sorted(reps, key=lambda r: (r[0], r[1], r[2])):
+            if lv == level and prio == 0:
+                npdu = f if level == "lan" else devref.strip_bvll(f)
+                if npdu is not None and npdu not in openings:
+                    openings.append(npdu)
+        for o in openings[:12 if tier == "quick" else 40]:
+            nb.append((level, o, False, "side-by-side"))
+            nb.append((level, o, True, "side-by-side"))
+            nb.append((level, o, False, "successor"))
+    acc.info["neighbour cases"] = len(nb)
+    run_shards(nb_shard, chunks(nb, 8), deadline, into=acc)
     acc.sample({"level": "lan", "base": "ReadProperty", "frame": BASES["ReadProperty"].hex(), "device_sent": a[2]})
     if pool.get("lan"):
         g = pool["lan"][0]
@@ -366,6 +486,12 @@ def run(tier, seed, deadline):
 
 def replay(case):
     vclock.install()
+    if case.get("neighbour"):
+        o = case["opening"]
+        o = o if isinstance(o, bytes) else bytes.fromhex(o["hex"])
+        problems, obs = neighbour_case(case["level"], o, case["busy_twin"], case["mode"])
+        return not problems, "level=%s opening=%s busy=%s mode=%s\nobservation=%r\nproblems=%r" % (
+            case["level"], o.hex(), "second device" if case["busy_twin"] else "first device", case["mode"], obs, problems)
     frames = [f if isinstance(f, bytes) else bytes.fromhex(f["hex"]) for f in case["frames"]]
     dev, problems, obs = run_frames(case["level"], frames, settle_between=case.get("settle", True),
                                     judge_first_reply=not case.get("dialogue"))
